@@ -80,6 +80,9 @@ def gen(seed, tier="quick"):
             params.append(["k", None])
             if r.random() < 0.4 and kind != "dc":
                 defaults["k"] = r.randrange(1, 5)  # the callee must see its DEFAULT in {k} when the caller omits it
+                if r.random() < 0.6:
+                    params.append(["j", None])  # a second defaulted parameter: callers override one and omit the other
+                    defaults["j"] = r.randrange(1, 5)
         fns[f"F{i}"] = {"style": style, "tc": r.choice(("tg", "tg", "bt", "min")), "kind": kind, "params": params, "defaults": defaults,
                         "ret": r.choice(arrs) if (kind not in ("dc", "gen", "coro") and not unannotated and r.random() < 0.6) else None}
     ctr = [0]
@@ -104,6 +107,8 @@ def _args_for(r, g, f, pref, p_bad):
         if aref is None:
             if name == "k" and "k" in f.get("defaults", {}) and pref.get("_omit_k"):
                 args.append({"t": "omit"})
+            elif name == "j" and "j" in f.get("defaults", {}):
+                args.append({"t": "omit"} if pref.get("_omit_j") else {"t": "int", "v": 9})
             else:
                 args.append({"t": "int", "v": pref["k"] if name == "k" else 7})
         else:
@@ -127,6 +132,9 @@ def _block(r, g, arrs, fns, pref, depth, n, kparam, ctr):
             ops.append({"op": "obs"})
         elif x < 0.46:
             ops.append({"op": "argprobe", "name": "k", "k": kparam if kparam is not None else 2})
+        elif x < 0.49 and depth < 3:
+            # resource fault: the interpreter's stack runs out while contexts are open (RecursionError unwinds through them)
+            ops.append({"op": "exhaust", "kind": r.choice(("ctx", "ctx", "none", "new")), "slack": r.randrange(0, 16)})
         elif x < 0.60 and depth < 4:
             ops.append({"op": "ctx", "body": _block(r, g, arrs, fns, _pref(r), depth + 1, r.randrange(1, 5), None, ctr),
                         "exit": "ret" if r.random() < 0.7 else ["raise", r.choice(EXITS)]})
@@ -138,6 +146,7 @@ def _block(r, g, arrs, fns, pref, depth, n, kparam, ctr):
             if "k" in f.get("defaults", {}) and r.random() < 0.6:
                 np_["_omit_k"] = True
                 np_["k"] = f["defaults"]["k"]
+            np_["_omit_j"] = r.random() < 0.5
             if f["kind"] in ("gen", "coro"):
                 ctr[0] += 1
                 var = f"g{ctr[0]}"
@@ -204,7 +213,7 @@ class Observer:
     # -- hooks
     def pre(self, interp, run, op, path):
         k = op["op"]
-        if k in ("ctx", "call"):
+        if k in ("ctx", "call", "exhaust"):
             with seams.quiet():
                 self.stack.append({"path": path, "snap": ctxsim.snapshot(), "text": ctxsim.bindings_text(),
                                    "fired": self._fired(), "entered": False, "exit_env": None})
@@ -245,6 +254,17 @@ class Observer:
 
     def post(self, interp, run, op, path, out):
         k = op["op"]
+        if k == "exhaust":
+            ent = self.stack.pop()
+            with seams.quiet():
+                snap = ctxsim.snapshot()
+                text = ctxsim.bindings_text()
+            self.stats.inc(f"cell:exhaust:{op['kind']}|{out if isinstance(out, str) else 'exc'}")
+            self.feats.add(f"exhaust:{op['kind']}|{out if isinstance(out, str) else out.get('exc')}|s{op['slack']}")
+            if snap != ent["snap"] or text != ent["text"]:
+                self._v("before=after", {"path": path, "flavour": "stack-exhaustion:" + op["kind"], "exit": "RecursionError", "slack": op["slack"],
+                                         "before": ent["snap"], "after": snap, "outcome": out}, what="snapshot")
+            return
         if k in ("ctx", "call"):
             ent = self.stack.pop()
             with seams.quiet():
